@@ -5,9 +5,10 @@ EXPLANATION = ('The real digit kernel BaseNumberParser._get_digital_value runs n
                'configuration; Decimal and its context are replaced by an exact proxy (harness/symdec.py) valid up to 15 digits, and the returned value must equal the '
                'number written for all digit values at once. CultureInfo.format is confirmed by CrossHair on symbolic decimal strings; the percentage parser by symx.')
 ASSUMPTIONS = ['Decimal arithmetic at 15 significant digits is exact for numerals of at most 15 digits (model validated against real Decimal on random numerals per shape: O3.2v)',
-               'shapes: plain / grouped with the culture\'s thousands mark / decimal with its decimal mark / grouped+decimal, optional leading "-", <= 15 digits, <= 6 fraction digits',
+               'shapes: plain / grouped with the culture\'s thousands mark / decimal with its decimal mark / grouped+decimal, optional leading "-", <= 15 digits, <= 6 fraction digits; '
+               'for cultures that accept both conventions also grouped+decimal with the marks exchanged ("1.234,56" in en-us)',
                'grouped numerals do not start with 0']
-OUTSIDE = ['which of several matches the regex engine prefers inside longer text (the language layer O3.1 only shows that a full match exists)', 'Chinese / Japanese (CJK parser)', 'multipliers (k, M, hundred ...), fractions, powers',
+OUTSIDE = ['which of several matches the regex engine prefers inside longer text (the language layer O3.1 only shows that a full match exists)', 'Chinese / Japanese (CJK parser)', 'recognition and stripping of the multiplier suffix itself (k, M ...; the kernel is checked with the multiplier as a parameter), fractions, powers',
            'sign words ("minus 5") and text restoration in BaseNumberParser.parse', 'numerals of more than 15 digits']
 N = 'recognizers_number.number.parsers:'
 CULTURES = ['en-us', 'es-es', 'es-mx', 'fr-fr', 'pt-br', 'de-de', 'it-it', 'nl-nl']
@@ -30,6 +31,14 @@ def shapes(tier):
     return out
 
 
+MULTI = ['en-us', 'es-es', 'es-mx', 'fr-fr']     # is_multi_decimal_separator_culture (checked by the harness: a swap slice elsewhere is a harness error)
+
+
+def swap_shapes(tier):
+    """the other convention (both marks present, e.g. "1.234,56" read in en-us): grouped + decimal shapes with the marks exchanged"""
+    return [dict(s, swap=1) for s in shapes(tier) if s.get('grouped') and s.get('frac') and len(s['groups']) > 1]
+
+
 def obligations(tier):
     t = 120 if tier == 'quick' else 600
     cult = CULTURES if tier == 'thorough' else ['en-us', 'es-es', 'es-mx', 'fr-fr', 'de-de']
@@ -37,10 +46,14 @@ def obligations(tier):
         # known-finding region F13: a signed integer with exactly one grouping mark after a three-digit group ("-250,000")
         return bool(s.get('neg') and s.get('grouped') and s['groups'] == [3, 3] and not s.get('frac'))
     sl = [{'culture': c, 'shape': s} for c in cult for s in shapes(tier) if not f13(s)]
+    sl += [{'culture': c, 'shape': s} for c in cult if c in MULTI for s in swap_shapes(tier)]
+    # the multiplier a k/M/G/T suffix contributes (collected by _digit_number_parse) reaches the kernel as `power`
+    pw = [s for s in shapes(tier) if s['groups'] in ([1], [3], [1, 3]) and s.get('frac', 0) in (0, 1, 2)]
+    sl += [{'culture': c, 'shape': s, 'power': p} for c in cult for s in pw for p in ((1000, 10 ** 6) if tier == 'quick' else (1000, 10 ** 6, 10 ** 9, 10 ** 12))]
     kf = [{'culture': c, 'shape': s} for c in ('en-us', 'fr-fr', 'de-de') for s in shapes(tier) if f13(s)]
     obs = [Ob('O3.2-digital-value', 'sx', 'harness.C03:h_digital_value', twin='harness.C03:t_digital_value', slices=sl, timeout=t,
               descr='_get_digital_value returns exactly the number written (grouping and decimal marks of the culture, optional sign) for every digit assignment',
-              bounds='all digit values of each shape (<= 15 digits); quick: 5 cultures, thorough: 8', encodes=[N + 'BaseNumberParser._get_digital_value',
+              bounds='all digit values of each shape (<= 15 digits); quick: 5 cultures, thorough: 8; suffix multiplier 1, 10^3, 10^6 (thorough 10^9, 10^12) on the short shapes', encodes=[N + 'BaseNumberParser._get_digital_value',
                                                                                                                 N + 'BaseNumberParser.__skip_non_decimal_separator'],
               stubs=['Decimal / getcontext -> exact proxy (harness/symdec.py)', 'numeral text -> SymText/SymChar proxies']),
            Ob('O3.2-signed-single-group', 'sx', 'harness.C03:h_digital_value', slices=kf, timeout=t, finding='F13',
